@@ -401,10 +401,12 @@ class ModuleVistor(NodeVisitor):
                                         f'{modname}.{origin_name}', thresh=1)
             elif isinstance(ob, model.Module) and (
                     not isinstance(current, model.Package) or 
-                    ob.state is model.ProcessingState.PROCESSING):
+                    ob.state is model.ProcessingState.PROCESSING or 
+                    ob.parent is None):
                 # A module can only be documented as part of a package: 
                 # when re-exported by a plain module it stays where it is.
-                # Neither can it be moved while it is being processed itself.
+                # Neither can it be moved while it is being processed itself,
+                # and a top-level module or package stays a root of the system.
                 pass
             else:
                 if origin_module.all is None or origin_name not in origin_module.all:
